@@ -44,11 +44,11 @@ def impl(line):
                 def f():
                     cm = ContextManager(ctx); s = cm.compress(mk_buf(pk), direction=d, match_strategy=st); dd = cm.decompress(s)
                     return f'{show_buf(s)},{show_buf(dd)}'
-                k, v = guarded(f, 20.0)
+                k, v = guarded(f, 5.0)
                 return v if k == 'ok' else 'err:' + v
             return f'orig={use(c)} reloaded={use(Context.from_json(c.json()))}'
         raise ValueError(op)
-    k, v = guarded(run, 30.0)
+    k, v = guarded(run, 8.0)
     return v if k == 'ok' else 'err:' + v
 
 def oracle(line, out):
@@ -84,6 +84,11 @@ def gen(props, tier, rng):
         for f in rule['fields'][:3]: yield f'json rfield {e_rfield(canon_rfield(f))}'
         for f in pkt['fields'][:2]: yield f'json field {e_field(f)}'
         yield f'json packet {e_packet(pkt)}'
+        # descriptors whose fields + payload do not spell the raw packet (semantic CoAP view, right-padded raw buffers)
+        p2 = copy.deepcopy(pkt)
+        if len(p2['fields']) > 1: del p2['fields'][rng.randrange(len(p2['fields']))]
+        if rng.random() < 0.5: p2['raw'] = 'R:' + p2['raw'][2:]
+        yield f'json packet {e_packet(p2)}'
         rs = [canon_rule(r) for r in rulegen.gen_ruleset(rng, pkt, nmax=4)]
         ctx = {'id': f'ctx {i}', 'iface': 'if 0', 'parser': 'CoAP', 'rules': rs}
         yield f'json context {e_context(ctx)}'
